@@ -345,6 +345,30 @@ func report(p *Program, prop, tier string, seed int, reps []*FuncReport, evidenc
 			ev["level"] = "other"
 			cov["explanation"] = "no obligation was discharged in this run"
 		}
+		if cov["decided_by"] == "bounded" {
+			// the property's main clause is decided by the bounded stand-ins only; the proved obligations cover auxiliary functions
+			ev["level"] = "exploration"
+			evals, nontriv, exh := 0, 0, len(bounded) > 0
+			var rules []string
+			for _, b := range bounded {
+				evals += b.Cases
+				nontriv += b.Nontrivial
+				exh = exh && b.Exhaustive
+				rules = append(rules, b.Name+": "+b.Domain)
+			}
+			cov["evaluations"] = evals
+			cov["distinct_nontrivial"] = nontriv
+			cov["exhaustive"] = exh
+			cov["rule"] = "bounded stand-ins enumerate their stated domain completely; a case is non-trivial by the rule stated in the stand-in (e.g. reference differs from query, history not skipped); " + strings.Join(rules, " | ")
+			var bs []interface{}
+			for _, b := range bounded {
+				for _, f := range b.Findings {
+					bs = append(bs, map[string]interface{}{"check": b.Name, "classified_finding": f.ID, "example": f.Example})
+				}
+				bs = append(bs, map[string]interface{}{"check": b.Name, "domain": b.Domain, "cases": b.Cases})
+			}
+			cov["samples"] = append(bs, samples...)
+		}
 		writeJSON(evidence, ev)
 	}
 	fmt.Fprintf(os.Stderr, "%s: %d obligations, %d proved, %d known findings, %d violations, %d vacuity checks; load %.1fs gen %.1fs total %.1fs\n",
